@@ -39,14 +39,28 @@ pub fn assume(_c: bool) {}
 
 /// A value type of the catalogue: symbolic constructor, reference encoder, structural equality.
 pub trait VT: Sized {
+    /// encoded size if it does not depend on the value
+    const FIXED: Option<usize> = None;
     fn any() -> Self;
     fn enc(&self, out: &mut RefBuf);
     fn same(&self, o: &Self) -> bool;
+    /// C06: no invalid bit pattern (bool > 1, non-scalar char, undeclared enum tag) anywhere in the
+    /// value. Observed through raw pointers so that UB becomes an ordinary assertion.
+    /// Sequences check one element at a symbolic index (= all elements, decided by the solver).
+    fn valid(&self) -> bool { true }
+    /// C06: number of bytes the reference encoding of this value occupies (no buffer needed).
+    fn wire_len(&self) -> u128 { Self::FIXED.expect("wire_len not implemented") as u128 }
+}
+pub fn sym_index(len: usize) -> usize {
+    let i: usize = anyv::<usize>();
+    assume(i < len);
+    i
 }
 
 macro_rules! vt_int {
     ($($t:ty),*) => {$(
         impl VT for $t {
+            const FIXED: Option<usize> = Some(std::mem::size_of::<$t>());
             fn any() -> Self { anyv::<$t>() }
             fn enc(&self, out: &mut RefBuf) { out.put(&self.to_le_bytes()) }
             fn same(&self, o: &Self) -> bool { *self == *o }
@@ -56,41 +70,54 @@ macro_rules! vt_int {
 vt_int!(u8, i8, u16, i16, u32, i32, u64, i64, u128, i128);
 
 impl VT for usize {
+    const FIXED: Option<usize> = Some(8);
     fn any() -> Self { anyv::<usize>() }
     fn enc(&self, out: &mut RefBuf) { out.put(&(*self as u64).to_le_bytes()) }
     fn same(&self, o: &Self) -> bool { *self == *o }
 }
 impl VT for isize {
+    const FIXED: Option<usize> = Some(8);
     fn any() -> Self { anyv::<isize>() }
     fn enc(&self, out: &mut RefBuf) { out.put(&(*self as i64).to_le_bytes()) }
     fn same(&self, o: &Self) -> bool { *self == *o }
 }
 impl VT for bool {
+    const FIXED: Option<usize> = Some(1);
+    fn valid(&self) -> bool { unsafe { *(self as *const bool as *const u8) <= 1 } }
     fn any() -> Self { anyv::<bool>() }
     fn enc(&self, out: &mut RefBuf) { out.put(&[if *self { 1u8 } else { 0u8 }]) }
     fn same(&self, o: &Self) -> bool { *self == *o }
 }
 impl VT for char {
+    const FIXED: Option<usize> = Some(4);
+    fn valid(&self) -> bool {
+        let raw = unsafe { *(self as *const char as *const u32) };
+        raw < 0xD800 || (raw > 0xDFFF && raw <= 0x10FFFF)
+    }
     fn any() -> Self { anyv::<char>() }
     fn enc(&self, out: &mut RefBuf) { out.put(&(*self as u32).to_le_bytes()) }
     fn same(&self, o: &Self) -> bool { *self == *o }
 }
 impl VT for f32 {
+    const FIXED: Option<usize> = Some(4);
     fn any() -> Self { f32::from_bits(anyv::<u32>()) }
     fn enc(&self, out: &mut RefBuf) { out.put(&self.to_bits().to_le_bytes()) }
     fn same(&self, o: &Self) -> bool { self.to_bits() == o.to_bits() }
 }
 impl VT for f64 {
+    const FIXED: Option<usize> = Some(8);
     fn any() -> Self { f64::from_bits(anyv::<u64>()) }
     fn enc(&self, out: &mut RefBuf) { out.put(&self.to_bits().to_le_bytes()) }
     fn same(&self, o: &Self) -> bool { self.to_bits() == o.to_bits() }
 }
 impl VT for () {
+    const FIXED: Option<usize> = Some(0);
     fn any() -> Self {}
     fn enc(&self, _out: &mut RefBuf) {}
     fn same(&self, _o: &Self) -> bool { true }
 }
 impl<T> VT for std::marker::PhantomData<T> {
+    const FIXED: Option<usize> = Some(0);
     fn any() -> Self { std::marker::PhantomData }
     fn enc(&self, _out: &mut RefBuf) {}
     fn same(&self, _o: &Self) -> bool { true }
@@ -122,6 +149,7 @@ pub fn any_ascii_string() -> String {
     }
 }
 impl VT for String {
+    fn wire_len(&self) -> u128 { 8 + self.len() as u128 }
     fn any() -> Self { any_ascii_string() }
     fn enc(&self, out: &mut RefBuf) {
         let by = self.as_bytes();
@@ -144,6 +172,8 @@ impl VT for String {
     }
 }
 impl<T: VT> VT for Option<T> {
+    fn valid(&self) -> bool { match self { Some(x) => x.valid(), None => true } }
+    fn wire_len(&self) -> u128 { match self { Some(x) => 1 + x.wire_len(), None => 1 } }
     fn any() -> Self { if anyv::<bool>() { Some(T::any()) } else { None } }
     fn enc(&self, out: &mut RefBuf) {
         match self {
@@ -156,6 +186,8 @@ impl<T: VT> VT for Option<T> {
     }
 }
 impl<T: VT, E: VT> VT for Result<T, E> {
+    fn valid(&self) -> bool { match self { Ok(x) => x.valid(), Err(x) => x.valid() } }
+    fn wire_len(&self) -> u128 { match self { Ok(x) => 1 + x.wire_len(), Err(x) => 1 + x.wire_len() } }
     fn any() -> Self { if anyv::<bool>() { Ok(T::any()) } else { Err(E::any()) } }
     fn enc(&self, out: &mut RefBuf) {
         match self {
@@ -168,71 +200,111 @@ impl<T: VT, E: VT> VT for Result<T, E> {
     }
 }
 impl<T: VT> VT for Box<T> {
+    const FIXED: Option<usize> = T::FIXED;
+    fn valid(&self) -> bool { (**self).valid() }
+    fn wire_len(&self) -> u128 { (**self).wire_len() }
     fn any() -> Self { Box::new(T::any()) }
     fn enc(&self, out: &mut RefBuf) { (**self).enc(out) }
     fn same(&self, o: &Self) -> bool { (**self).same(&**o) }
 }
 impl<T: VT> VT for std::rc::Rc<T> {
+    const FIXED: Option<usize> = T::FIXED;
+    fn valid(&self) -> bool { (**self).valid() }
+    fn wire_len(&self) -> u128 { (**self).wire_len() }
     fn any() -> Self { std::rc::Rc::new(T::any()) }
     fn enc(&self, out: &mut RefBuf) { (**self).enc(out) }
     fn same(&self, o: &Self) -> bool { (**self).same(&**o) }
 }
 impl<T: VT> VT for std::sync::Arc<T> {
+    const FIXED: Option<usize> = T::FIXED;
+    fn valid(&self) -> bool { (**self).valid() }
+    fn wire_len(&self) -> u128 { (**self).wire_len() }
     fn any() -> Self { std::sync::Arc::new(T::any()) }
     fn enc(&self, out: &mut RefBuf) { (**self).enc(out) }
     fn same(&self, o: &Self) -> bool { (**self).same(&**o) }
 }
 impl<T: VT + Copy> VT for std::cell::Cell<T> {
+    const FIXED: Option<usize> = T::FIXED;
+    fn valid(&self) -> bool { unsafe { (*self.as_ptr()).valid() } }
+    fn wire_len(&self) -> u128 { self.get().wire_len() }
     fn any() -> Self { std::cell::Cell::new(T::any()) }
     fn enc(&self, out: &mut RefBuf) { self.get().enc(out) }
     fn same(&self, o: &Self) -> bool { self.get().same(&o.get()) }
 }
 impl<T: VT> VT for std::cell::RefCell<T> {
+    const FIXED: Option<usize> = T::FIXED;
+    fn valid(&self) -> bool { self.borrow().valid() }
+    fn wire_len(&self) -> u128 { self.borrow().wire_len() }
     fn any() -> Self { std::cell::RefCell::new(T::any()) }
     fn enc(&self, out: &mut RefBuf) { self.borrow().enc(out) }
     fn same(&self, o: &Self) -> bool { self.borrow().same(&*o.borrow()) }
 }
 impl<A: VT> VT for (A,) {
+    const FIXED: Option<usize> = A::FIXED;
+    fn valid(&self) -> bool { self.0.valid() }
+    fn wire_len(&self) -> u128 { self.0.wire_len() }
     fn any() -> Self { (A::any(),) }
     fn enc(&self, out: &mut RefBuf) { self.0.enc(out) }
     fn same(&self, o: &Self) -> bool { self.0.same(&o.0) }
 }
 impl<A: VT, B: VT> VT for (A, B) {
+    const FIXED: Option<usize> = match (A::FIXED, B::FIXED) { (Some(a), Some(b)) => Some(a + b), _ => None };
+    fn valid(&self) -> bool { self.0.valid() && self.1.valid() }
+    fn wire_len(&self) -> u128 { self.0.wire_len() + self.1.wire_len() }
     fn any() -> Self { (A::any(), B::any()) }
     fn enc(&self, out: &mut RefBuf) { self.0.enc(out); self.1.enc(out) }
     fn same(&self, o: &Self) -> bool { self.0.same(&o.0) && self.1.same(&o.1) }
 }
 impl<A: VT, B: VT, C: VT> VT for (A, B, C) {
+    const FIXED: Option<usize> = match (A::FIXED, B::FIXED, C::FIXED) { (Some(a), Some(b), Some(c)) => Some(a + b + c), _ => None };
+    fn valid(&self) -> bool { self.0.valid() && self.1.valid() && self.2.valid() }
+    fn wire_len(&self) -> u128 { self.0.wire_len() + self.1.wire_len() + self.2.wire_len() }
     fn any() -> Self { (A::any(), B::any(), C::any()) }
     fn enc(&self, out: &mut RefBuf) { self.0.enc(out); self.1.enc(out); self.2.enc(out) }
     fn same(&self, o: &Self) -> bool { self.0.same(&o.0) && self.1.same(&o.1) && self.2.same(&o.2) }
 }
 impl<A: VT, B: VT, C: VT, D: VT> VT for (A, B, C, D) {
+    fn valid(&self) -> bool { self.0.valid() && self.1.valid() && self.2.valid() && self.3.valid() }
+    fn wire_len(&self) -> u128 { self.0.wire_len() + self.1.wire_len() + self.2.wire_len() + self.3.wire_len() }
     fn any() -> Self { (A::any(), B::any(), C::any(), D::any()) }
     fn enc(&self, out: &mut RefBuf) { self.0.enc(out); self.1.enc(out); self.2.enc(out); self.3.enc(out) }
     fn same(&self, o: &Self) -> bool { self.0.same(&o.0) && self.1.same(&o.1) && self.2.same(&o.2) && self.3.same(&o.3) }
 }
 impl<T: VT> VT for std::ops::Range<T> {
+    fn valid(&self) -> bool { self.start.valid() && self.end.valid() }
+    fn wire_len(&self) -> u128 { self.start.wire_len() + self.end.wire_len() }
     fn any() -> Self { T::any()..T::any() }
     fn enc(&self, out: &mut RefBuf) { self.start.enc(out); self.end.enc(out) }
     fn same(&self, o: &Self) -> bool { self.start.same(&o.start) && self.end.same(&o.end) }
 }
 impl<T: VT> VT for [T; 0] {
+    const FIXED: Option<usize> = match T::FIXED { Some(a) => Some(a * 0), None => None };
+    fn valid(&self) -> bool { true }
+    fn wire_len(&self) -> u128 { 0 }
     fn any() -> Self { [] }
     fn enc(&self, _out: &mut RefBuf) {}
     fn same(&self, _o: &Self) -> bool { true }
 }
 impl<T: VT> VT for [T; 1] {
+    const FIXED: Option<usize> = match T::FIXED { Some(a) => Some(a * 1), None => None };
+    fn valid(&self) -> bool { self[0].valid() }
+    fn wire_len(&self) -> u128 { self[0].wire_len() }
     fn any() -> Self { [T::any()] }
     fn enc(&self, out: &mut RefBuf) { self[0].enc(out) }
     fn same(&self, o: &Self) -> bool { self[0].same(&o[0]) }
 }
 impl<T: VT> VT for [T; 2] {
+    const FIXED: Option<usize> = match T::FIXED { Some(a) => Some(a * 2), None => None };
+    fn valid(&self) -> bool { self[0].valid() && self[1].valid() }
+    fn wire_len(&self) -> u128 { self[0].wire_len() + self[1].wire_len() }
     fn any() -> Self { [T::any(), T::any()] }
     fn enc(&self, out: &mut RefBuf) { self[0].enc(out); self[1].enc(out) }
     fn same(&self, o: &Self) -> bool { self[0].same(&o[0]) && self[1].same(&o[1]) }
 }
 impl<T: VT> VT for [T; 3] {
+    const FIXED: Option<usize> = match T::FIXED { Some(a) => Some(a * 3), None => None };
+    fn valid(&self) -> bool { self[0].valid() && self[1].valid() && self[2].valid() }
+    fn wire_len(&self) -> u128 { self[0].wire_len() + self[1].wire_len() + self[2].wire_len() }
     fn any() -> Self { [T::any(), T::any(), T::any()] }
     fn enc(&self, out: &mut RefBuf) { self[0].enc(out); self[1].enc(out); self[2].enc(out) }
     fn same(&self, o: &Self) -> bool { self[0].same(&o[0]) && self[1].same(&o[1]) && self[2].same(&o[2]) }
@@ -255,6 +327,25 @@ pub fn enc_seq<T: VT>(items: &[T], out: &mut RefBuf) {
         i += 1;
     }
 }
+pub fn valid_seq<T: VT>(a: &[T]) -> bool {
+    if a.len() == 0 { return true; }
+    a[sym_index(a.len())].valid()
+}
+/// 8 + sum of element sizes; for value-dependent element sizes the sum is a loop (callers bound len).
+pub fn wire_len_seq<T: VT>(a: &[T]) -> u128 {
+    match T::FIXED {
+        Some(f) => 8 + (a.len() as u128) * (f as u128),
+        None => {
+            let mut t: u128 = 8;
+            let mut i = 0;
+            while i < a.len() {
+                t += a[i].wire_len();
+                i += 1;
+            }
+            t
+        }
+    }
+}
 pub fn same_seq<T: VT>(a: &[T], b: &[T]) -> bool {
     if a.len() != b.len() { return false; }
     let mut i = 0;
@@ -265,21 +356,34 @@ pub fn same_seq<T: VT>(a: &[T], b: &[T]) -> bool {
     true
 }
 impl<T: VT> VT for Vec<T> {
+    fn valid(&self) -> bool { valid_seq(self) }
+    fn wire_len(&self) -> u128 { wire_len_seq(self) }
     fn any() -> Self { any_vec::<T>() }
     fn enc(&self, out: &mut RefBuf) { enc_seq(self, out) }
     fn same(&self, o: &Self) -> bool { same_seq(self, o) }
 }
 impl<T: VT> VT for Box<[T]> {
+    fn valid(&self) -> bool { valid_seq(self) }
+    fn wire_len(&self) -> u128 { wire_len_seq(self) }
     fn any() -> Self { any_vec::<T>().into_boxed_slice() }
     fn enc(&self, out: &mut RefBuf) { enc_seq(self, out) }
     fn same(&self, o: &Self) -> bool { same_seq(self, o) }
 }
 impl<T: VT> VT for std::sync::Arc<[T]> {
+    fn valid(&self) -> bool { valid_seq(self) }
+    fn wire_len(&self) -> u128 { wire_len_seq(self) }
     fn any() -> Self { any_vec::<T>().into() }
     fn enc(&self, out: &mut RefBuf) { enc_seq(self, out) }
     fn same(&self, o: &Self) -> bool { same_seq(self, o) }
 }
 impl<T: VT> VT for VecDeque<T> {
+    fn valid(&self) -> bool { if self.len() == 0 { true } else { self[sym_index(self.len())].valid() } }
+    fn wire_len(&self) -> u128 {
+        match T::FIXED {
+            Some(f) => 8 + (self.len() as u128) * (f as u128),
+            None => { let mut t: u128 = 8; let mut i = 0; while i < self.len() { t += self[i].wire_len(); i += 1; } t }
+        }
+    }
     fn any() -> Self {
         let mut d = VecDeque::with_capacity(4);
         let l = shape_len();
@@ -307,6 +411,8 @@ impl<T: VT> VT for VecDeque<T> {
     }
 }
 impl<T: VT, const C: usize> VT for arrayvec::ArrayVec<T, C> {
+    fn valid(&self) -> bool { valid_seq(self) }
+    fn wire_len(&self) -> u128 { wire_len_seq(self) }
     fn any() -> Self {
         let mut d = arrayvec::ArrayVec::new();
         let l = shape_len();
@@ -317,4 +423,35 @@ impl<T: VT, const C: usize> VT for arrayvec::ArrayVec<T, C> {
     }
     fn enc(&self, out: &mut RefBuf) { enc_seq(self, out) }
     fn same(&self, o: &Self) -> bool { same_seq(self, o) }
+}
+
+// ---- opaque std types used by C06/C01 (no reference encoder needed for C06: FIXED + valid only)
+impl VT for std::net::IpAddr {
+    fn any() -> Self {
+        if anyv::<bool>() { std::net::IpAddr::V4(std::net::Ipv4Addr::from_bits(anyv::<u32>())) } else { std::net::IpAddr::V6(std::net::Ipv6Addr::from_bits(anyv::<u128>())) }
+    }
+    fn enc(&self, out: &mut RefBuf) {
+        match self {
+            std::net::IpAddr::V4(a) => { out.put(&[0u8]); out.put(&a.to_bits().to_le_bytes()) }
+            std::net::IpAddr::V6(a) => { out.put(&[1u8]); out.put(&a.to_bits().to_le_bytes()) }
+        }
+    }
+    fn same(&self, o: &Self) -> bool { *self == *o }
+    fn wire_len(&self) -> u128 { match self { std::net::IpAddr::V4(_) => 5, std::net::IpAddr::V6(_) => 17 } }
+}
+impl VT for std::time::Duration {
+    const FIXED: Option<usize> = Some(16);
+    fn any() -> Self {
+        let n: u32 = anyv::<u32>();
+        assume(n < 1_000_000_000);
+        std::time::Duration::new(anyv::<u64>(), n)
+    }
+    fn enc(&self, out: &mut RefBuf) { out.put(&self.as_nanos().to_le_bytes()) }
+    fn same(&self, o: &Self) -> bool { *self == *o }
+}
+impl VT for std::time::SystemTime {
+    const FIXED: Option<usize> = Some(16);
+    fn any() -> Self { std::time::SystemTime::UNIX_EPOCH }
+    fn enc(&self, _out: &mut RefBuf) { unimplemented!() }
+    fn same(&self, o: &Self) -> bool { *self == *o }
 }
